@@ -127,6 +127,14 @@ class Oracle:
                 chans = getattr(self, "chans_of", {}).get(int(w))
                 if j is not None and chans and j.channel not in chans:
                     self.bad("C17", f"worker {w} asked for channels {chans} and received a job of channel {j.channel}")
+        if t[0] == "tick":
+            # the timeout sweep has just run: whatever is past its deadline is finished now
+            now = sim.clock
+            for deadline, j in list(wq.timeoutq):        # (deadline, job) wherever it sits in the list
+                if not j.done and deadline <= now:
+                    self.bad("C18" if self.restarted else "C17",
+                             f"job {j.jobid!r} (serial {j.serial}) is past its deadline ({deadline} <= {now}) and still unfinished after the timeout sweep"
+                             + (" - a restored job is no longer subject to its timeout" if self.restarted else ""))
         if t[0] in ("finish", "kill") and outs and outs[0] == "ok":
             pass
         # finality
